@@ -264,3 +264,28 @@ def c06(tier, seed):
     if tier == "thorough":
         qs += [q_emit_loop(1500), q_emit_full(12)]
     return qs
+
+
+def q_qltlv(name, frame_n=576, mtu_min=None, defines=None, K=2, icon_max=32768, **kw):
+    d = list(defines or []) + ["ICON_MAX=%d" % icon_max, "V_MEMCPY_RECORD"]
+    rep = unreach("parseQueryLargeTlv")
+    if "QTYPE_OTHER" in d:
+        rep.update({"lltd_port_get_icon_image": "unreach_get_blob", "lltd_port_get_friendly_name": "unreach_get_blob", "lltd_port_get_hw_id": "unreach_get_hwid"})
+    return blkq("blk_qltlv_%s" % name, "h_qltlv", replace=rep, K=K, frame_n=frame_n, mtu_min=mtu_min, defines=d, unwind=36, no_std_checks=True,
+                bounds={"type": "0..255" if not defines else str(defines), "offset": "0..65535", "data size": "0..%d (icon, friendly name), 0..64 even (hardware id)" % icon_max,
+                        "payload index j": "symbolic (universally quantified)", "icon": "from the port or from the session cache (both pre-states)", "seq": "0..65535 (0 = ignored)"},
+                desc="QueryLargeTlv class through real parseFrame/parseQueryLargeTlv/sendLargeTlvResponse: per-call chunk relation + ownership ledger", **kw)
+
+
+@prop("C08", ["hardware id contract: even number of bytes (<= 64) of NUL-free UCS-2LE, as the core recovers its length by scanning for a 16-bit NUL",
+              "request from the active mapper or while none is active",
+              "reassembly = induction on the offset over the per-call relation (progress and containment asserted per call); data size <= 32768, MTU as stated per query",
+              "the payload copy is checked through the contract of lltd_port_memcpy (dst[0..n) = src[0..n)): destination, source+offset and length of the single copy are asserted, readable/writable regions are asserted; bytes are not moved inside the solver (CBMC's own memcpy model with symbolic length and offset exhausts memory)"])
+def c08(tier, seed):
+    def fam(tag, **kw):
+        return [q_qltlv("icon_" + tag, defines=["QTYPE=0x0E"], **kw), q_qltlv("name_" + tag, defines=["QTYPE=0x11"], **kw),
+                q_qltlv("hwid_" + tag, defines=["QTYPE=0x13"], **kw), q_qltlv("other_" + tag, defines=["QTYPE_OTHER"], **kw)]
+    qs = fam("576") + [q_qltlv("alltypes_576"), q_qltlv("alltypes_symmtu", frame_n=9216, mtu_min=576)]
+    if tier == "thorough":
+        qs += fam("1500", frame_n=1500) + fam("9216", frame_n=9216) + fam("symmtu", frame_n=9216, mtu_min=576, timeout=1800, mem_gb=16)
+    return qs
